@@ -35,6 +35,7 @@ import GM.Props.Blocks
 import GM.Props.Inlines
 import GM.Props.Attribute
 import GM.Props.Convert
+import GM.Props.ConvertE2E
 
 namespace GM.Props.C01
 open GM
@@ -130,5 +131,18 @@ theorem block_phase_with_transformers_terminates : type_of% @GM.Props.Convert.bl
 theorem link_reference_scanner_total : type_of% @GM.Props.Convert.definition_scanner_total := @GM.Props.Convert.definition_scanner_total
 theorem link_reference_scan_total : type_of% @GM.Props.Convert.transform_scan_total := @GM.Props.Convert.transform_scan_total
 theorem link_reference_scan_never_loops : type_of% @GM.Props.Convert.transform_never_loops := @GM.Props.Convert.transform_never_loops
+
+/-- (re-export of `GM.Props.ConvertE2E.convert_no_render_panic`) `convert_no_render_panic`. For EVERY source, Unicode class assignment and option set `convertCore` never ends in
+    `Err.render k`: no node renderer function panics on parser output (`"0123456"[n.Level]` in renderHeading,
+    `c.(*ast.Text)` in renderCodeSpan; the table-cell assertion needs the table extension). -/
+theorem convert_no_render_panic : type_of% @GM.Props.ConvertE2E.convert_no_render_panic := @GM.Props.ConvertE2E.convert_no_render_panic
+
+/-- (re-export of `GM.Props.ConvertE2E.convert_no_value_panic_partial`) `convert_no_value_panic_partial`. Given (a) the segments the inline phase records never carry a negative padding
+    (`InlineSegsUnpadded`, a statement about `GM.Inl.parseBlock` on `WF0` lines) and (b) in the store the block phase
+    returns for `src` the lines of raw blocks, fenced info segments and HTML closure lines are inside the source with
+    non-negative padding (`RawSegsInRange`): `convertCore` never ends in `Err.value p`, for every Unicode class
+    assignment and option set. The RANGE of the inline segments is not a hypothesis: it follows from the `WF0` check
+    `convertCore` makes and the segment theorem of the inline phase. -/
+theorem convert_no_value_panic_partial : type_of% @GM.Props.ConvertE2E.convert_no_value_panic_partial := @GM.Props.ConvertE2E.convert_no_value_panic_partial
 
 end GM.Props.C01
